@@ -613,5 +613,10 @@ m("c01-decorator-tracker-field", "C01", "app/ante/evm/vesting.go",
   "write-", "per-transaction tracker kept in a package-level map shared by CheckTx and DeliverTx",
   extra=[("// NewEthVestingTransactionDecorator returns", "var vtdShared = map[string]*ethVestingExpenseTracker{}\n\n// NewEthVestingTransactionDecorator returns")])
 
+m("c15-fund-ignores-deposit-error", "C15", "x/ucdao/keeper/keeper.go",
+  "\tif err := k.bk.SendCoinsFromAccountToModule(ctx, sender, types.ModuleName, amount); err != nil {\n\t\treturn err\n\t}\n",
+  "\t_ = k.bk.SendCoinsFromAccountToModule(ctx, sender, types.ModuleName, amount)\n",
+  "drops-error-of", "a failed deposit is ignored: shares are credited for coins that never arrived")
+
 json.dump(M, open('/verif/mutants.json', 'w'), indent=1)
 print(len(M), "mutants written")
